@@ -3,7 +3,7 @@ import itertools, random
 from common import *
 
 KEYS = ["a", "b", "c"]
-MEMBERS = ["x", "y", "z", "", "x\r\n\x00\xff", "12", "limit"]
+MEMBERS = ["x", "y", "z", "", "x\r\n\x00\xff", "12", "limit", "%d"]
 COUNTS = ["-4", "-2", "-1", "0", "1", "2", "3", "9", "+2", "-0"]
 BADINT = ["zz", "", "1.5x", " 1", "1_0", "--1"]
 OTHER_VALUES = [vstr("v"), vint(12), vfloat(3, 2), vlist(["m1", "m2"]), vhash({"f": vstr("v")}), vzset({"m": "1/1"})]
